@@ -189,15 +189,31 @@ def c02_5(ck, prog):
                             'order' % (c['callee'], estr(bo)))
     if n < 10:
         raise AnalysisBroken('only %d marshalling calls on header/body found' % n)
-    from rules.C12 import c12_1, c12_2, c12_5
+    from rules.C12 import c12_1, c12_2, c12_5, c12_6
     save = ck.rule
     ck.rule = lambda *a, **k: r
     try:
         c12_1(ck, prog)
         c12_5(ck, prog)       # a built message names each header field with its table type
+        c12_6(ck, prog)       # a failed edit of a message under construction leaves its bytes alone
         # getters of a message under construction read through the field-position cache: it must not
         # survive a header edit that moved bytes (shared with C12.2)
         c12_2(ck, prog)
+    finally:
+        ck.rule = save
+
+
+def c02_6(ck, prog):
+    from rules.C01 import c01_5b
+    r6 = ck.rule('C02.6', 'byte-order conversion walks a body exactly as the validator does (shared with C01.5b): '
+                 'one value in a variant, element-wise arrays aligned to their element type even when empty, all '
+                 'struct members', 'TAB',
+                 breaks='converting a message to the other byte order changes values that follow an empty array '
+                        'or a container', floor=8)
+    save = ck.rule
+    ck.rule = lambda *a, **k: r6
+    try:
+        c01_5b(ck, prog)
     finally:
         ck.rule = save
 
@@ -217,5 +233,6 @@ def run(ck):
         c02_2(ck, prog)
         c02_3(ck, prog)
         c02_5(ck, prog)
+        c02_6(ck, prog)
         from rules.C14 import signature_pairing
         signature_pairing(ck, prog, rid='C02.4')
